@@ -1,6 +1,8 @@
 (** Entry point of the extracted runner: one checker per domain. *)
-From Verif Require Import Json Breaker CorrBreaker.
+From Verif Require Import Json Breaker CorrBreaker CorrMatch CorrLoc.
 
 Definition check_case (domain : string) (c : json) : json :=
   if String.eqb domain "breaker" then check_breaker c
+  else if String.eqb domain "match" then check_match c
+  else if String.eqb domain "loc" then check_loc c
   else JObj [("ok", JBool false); ("why", JStr ("unknown domain " ++ domain))].
